@@ -470,6 +470,14 @@ func Generate(r *rand.Rand, profile string) *Scenario {
 			}
 		}
 	}
+	if profile == "fifo" && chance(0.5) {
+		// pod groups of a queue that does not exist (deleted queue, typo): they can never be scheduled and must
+		// not disturb the order in which the others are
+		for x := 0; x < pick(1, 2, 3); x++ {
+			sc.Jobs = append(sc.Jobs, Job{Name: fmt.Sprintf("orphan%d", x+1), Queue: 0, Prio: pick(50, 75), Preempt: 1, Min: 1, Age: 600 + 60*r.Intn(50), LastStart: -1})
+			sc.Pods = append(sc.Pods, Pod{Name: fmt.Sprintf("orphan%d-p1", x+1), Job: len(sc.Jobs), Cpu: 100, Mem: 100, Gpu: pick(0, 1), Phase: "P"})
+		}
+	}
 	if profile == "fifo" && chance(0.35) {
 		// an older, partially running multi-sub-group job of the same leaf queue and priority as the
 		// comparable jobs: its leader is pending (e.g. recreated) while its workers run above their
